@@ -240,6 +240,14 @@ pub async fn stress(seed: u64, total: usize, cap: usize, ev: &mut Evidence) -> V
                 "ok"
             }
             Err(RequestError::Shutdown) => {
+                if r.full.load(Ordering::SeqCst) && *at < sd {
+                    // known finding (known_findings.txt), same signature as in the sim legs
+                    ev.count("ffi_refused_calls_reporting_shutdown_while_task_alive", 1);
+                    let sig = "ffi:refused_at_full_queue:callback=shutdown:task_alive";
+                    if !problems.iter().any(|p: &(String, String)| p.0 == sig) {
+                        problems.push((sig.into(), "FfiChannel call refused (queue full) while the task is alive: the call returns an error and the callback reports Shutdown".into()));
+                    }
+                }
                 if !r.full.load(Ordering::SeqCst) && *at < sd {
                     problems.push(("net:shutdown_error_while_task_alive".into(), format!("request {id} completed with Shutdown {:?} before the task was told to end", sd.duration_since(*at))));
                 }
